@@ -143,7 +143,7 @@ func (s *Sim) injectLegacyPod(def *EDSDef, node *corev1.Node, ps PodState) {
 	p := &corev1.Pod{
 		ObjectMeta: metav1.ObjectMeta{
 			Namespace: def.NS, Name: fmt.Sprintf("%s-%s-i%d", def.OldDS, node.Name, s.injSeq),
-			Labels: map[string]string{"app": "legacy"},
+			Labels: s.legacyLabels(),
 			OwnerReferences: []metav1.OwnerReference{{APIVersion: "apps/v1", Kind: "DaemonSet", Name: def.OldDS, UID: types.UID("uid-legacy-" + def.OldDS), Controller: bptr(true)}},
 		},
 		Spec: corev1.PodSpec{Containers: []corev1.Container{{Name: "main", Image: "legacy:1"}}},
@@ -152,12 +152,21 @@ func (s *Sim) injectLegacyPod(def *EDSDef, node *corev1.Node, ps PodState) {
 	s.finishInjected(p, node.Name, ps)
 }
 
+// legacyLabels: the labels (and selector) of the old DaemonSet; in a realistic migration they are the
+// ones of the ExtendedDaemonSet's own pod template, so that its selector also matches the new pods.
+func (s *Sim) legacyLabels() map[string]string {
+	if s.W.Extra["legacySameLabels"] == "1" {
+		return map[string]string{"app": "daemon"}
+	}
+	return map[string]string{"app": "legacy"}
+}
+
 func (s *Sim) ensureLegacyDS(def *EDSDef) {
 	ds := &appsv1.DaemonSet{
 		ObjectMeta: metav1.ObjectMeta{Namespace: def.NS, Name: def.OldDS, UID: types.UID("uid-legacy-" + def.OldDS)},
 		Spec: appsv1.DaemonSetSpec{
-			Selector: &metav1.LabelSelector{MatchLabels: map[string]string{"app": "legacy"}},
-			Template: corev1.PodTemplateSpec{ObjectMeta: metav1.ObjectMeta{Labels: map[string]string{"app": "legacy"}}, Spec: corev1.PodSpec{Containers: []corev1.Container{{Name: "main", Image: "legacy:1"}}}},
+			Selector: &metav1.LabelSelector{MatchLabels: s.legacyLabels()},
+			Template: corev1.PodTemplateSpec{ObjectMeta: metav1.ObjectMeta{Labels: s.legacyLabels()}, Spec: corev1.PodSpec{Containers: []corev1.Container{{Name: "main", Image: "legacy:1"}}}},
 		},
 	}
 	s.Store.Inject(ds)
